@@ -238,10 +238,11 @@ func TestCheck(t *testing.T) {
 		"each with a seeded record sequence over 4 devices; distinct = (pattern, shape); non-trivial = pattern has a failure that is later followed by a success " +
 		"or shape injects in-flight records. stress: writers x refresher under the race detector; porcupine: small concurrent histories against a counter model")
 	r.Assume("scripted part: the Uploader reads the batch only during Upload (as backendpb does); the real backendpb uploader is exercised separately over loopback gRPC")
-	r.Assume("one refresher at a time (agdservice.RefreshWorker runs Refresh sequentially)")
+	r.Assume("scripted and stress parts use one refresher at a time (agdservice.RefreshWorker runs Refresh sequentially); overlapping refreshes (periodic worker vs debug refresh API) are driven by the overlap part")
 
 	scripted(r)
 	realUploader(r)
+	overlapping(r)
 	stress(r)
 	linearizable(r)
 
@@ -250,6 +251,7 @@ func TestCheck(t *testing.T) {
 	r.Require("stress_records", 1000)
 	r.Require("porcupine_ok", 1)
 	r.Require("grpc_streams_rejected", 20)
+	r.Require("overlapping_refreshes", 40)
 }
 
 func scripted(r *vkit.Run) {
